@@ -588,7 +588,7 @@ def run(ck: core.Check):
         ck.leanchecker(["SpoxModel.Props.C01"])
 
     rng = ck.rng
-    n_random = ck.pick(460, 7000)
+    n_random = ck.pick(460, 6000)
     n_styles = ck.pick(3, 4)
     n_bind = 3
     skel_uses = ck.pick(3, 6)
